@@ -578,6 +578,6 @@ META = {
                   "Kirkwood-Mueller constants); both solvers are interpreted on symbolic pressure vectors with the optimiser "
                   "summarised, checking objective, bounds and one-width-per-point over all stop patterns; the result transforms "
                   "and the psd_microporous dispatch are checked for every model/geometry.",
-    "level_note": "Trusted: bounded scalar minimiser; sympy. Not decided: the series (cylinder/sphere) and Rege-Yang potentials "
-                  "against their publications, minimiser accuracy, monotonicity of widths.",
+    "level_note": "Trusted: bounded scalar minimiser; sympy. Not decided: the series (cylinder/sphere) and the Rege-Yang cylinder / sphere "
+                  "potentials against their publications (the RY slit is compared with the documented equations), minimiser accuracy, monotonicity of widths.",
 }
